@@ -536,6 +536,31 @@ pub fn udp_smoke(ctx: &Ctx) -> SubResult {
             extra_liveness_predicate: None,
         };
         let handle = spawn_chitchat(config, vec![], &UdpTransport).await.map_err(|e| format!("spawn: {e:#}"))?;
+        // A *valid* message that exactly fills a datagram (a SYN of another cluster whose id pads it
+        // to 65,507 bytes) must be answered (with BadCluster), like a small one. The comparison with
+        // the small probe keeps timing out of the verdict.
+        {
+            let small = encode_msg(&WMsg::Syn { cluster_id: "another-cluster".into(), digest: vec![] }, Blocking::Canonical).0;
+            let pad = MAX_DATAGRAM - (small.len() - "another-cluster".len());
+            let big = encode_msg(&WMsg::Syn { cluster_id: "z".repeat(pad), digest: vec![] }, Blocking::Canonical).0;
+            let mut buf = vec![0u8; 65_536];
+            let mut answered = [0u32; 2];
+            for (which, payload, tries) in [(0usize, &small, 2), (1usize, &big, 4)] {
+                for _ in 0..tries {
+                    let _ = probe.send_to(payload, server_addr).await;
+                    if let Ok(Ok((len, _))) = tokio::time::timeout(Duration::from_secs(2), probe.recv_from(&mut buf)).await {
+                        if matches!(decode_msg(&buf[..len]).map(|d| d.msg), Ok(WMsg::BadCluster)) {
+                            answered[which] += 1;
+                            break;
+                        }
+                    }
+                }
+            }
+            if big.len() == MAX_DATAGRAM && answered[0] > 0 && answered[1] == 0 {
+                let _ = tokio::time::timeout(Duration::from_secs(10), handle.shutdown()).await;
+                return Ok((0, u64::MAX - 2));
+            }
+        }
         let mut x = splitmix64(seed);
         let mut garbage = 0u64;
         let (valid, _) = encode_msg(&WMsg::Syn { cluster_id: "c".into(), digest: vec![] }, Blocking::Canonical);
@@ -587,8 +612,8 @@ pub fn udp_smoke(ctx: &Ctx) -> SubResult {
                         // Every datagram the server emits must be exactly one well-formed message.
                         match decode_msg(&buf[..len]) {
                             Ok(d) if d.consumed == len => {}
-                            Ok(d) => return Ok((garbage, u64::MAX - 1 - (len - d.consumed) as u64)),
-                            Err(_) => return Ok((garbage, u64::MAX - 1)),
+                            Ok(d) => return Ok((garbage, u64::MAX - 3 - (len - d.consumed) as u64)),
+                            Err(_) => return Ok((garbage, u64::MAX - 3)),
                         }
                         if let Ok(d) = decode_msg(&buf[..len]) {
                             if matches!(d.msg, WMsg::SynAck { .. }) {
@@ -621,8 +646,8 @@ pub fn udp_smoke(ctx: &Ctx) -> SubResult {
                             break;
                         }
                     }
-                    Ok(d) => return Ok((garbage, u64::MAX - 1 - (len - d.consumed) as u64)),
-                    Err(_) => return Ok((garbage, u64::MAX - 1)),
+                    Ok(d) => return Ok((garbage, u64::MAX - 3 - (len - d.consumed) as u64)),
+                    Err(_) => return Ok((garbage, u64::MAX - 3)),
                 },
                 _ => break,
             }
@@ -638,8 +663,12 @@ pub fn udp_smoke(ctx: &Ctx) -> SubResult {
             res.tally.evaluations += 1;
             res.tally.sum("garbage_datagrams", garbage);
             res.tally.sum("probes_answered", answered);
-            if answered != u64::MAX && answered > u64::MAX - 100_000 {
-                let f = Failure::new(format!("{}/udp-malformed-answer", ctx.prop), format!("the server answered a SYN on the real UDP transport with a datagram that is not exactly one well-formed message ({} trailing bytes; u64::MAX-1 = undecodable)", u64::MAX - 1 - answered));
+            if answered == u64::MAX - 2 {
+                let f = Failure::new(format!("{}/udp-max-size-message-dropped", ctx.prop), "a valid 65,507-byte message (the size budget of the library itself) is never answered on the real UDP transport while a small one is");
+                let path = write_replay(ctx, "udp-loopback-smoke", &serde_json::json!({"udp_smoke": true}), &f);
+                res.violations.push(Violation { signature: f.signature, message: f.message, replay_path: path });
+            } else if answered != u64::MAX && answered > u64::MAX - 100_000 {
+                let f = Failure::new(format!("{}/udp-malformed-answer", ctx.prop), format!("the server answered a SYN on the real UDP transport with a datagram that is not exactly one well-formed message ({} trailing bytes; 0 = undecodable)", u64::MAX - 3 - answered));
                 let path = write_replay(ctx, "udp-loopback-smoke", &serde_json::json!({"udp_smoke": true}), &f);
                 res.violations.push(Violation { signature: f.signature, message: f.message, replay_path: path });
             } else if answered == u64::MAX {
